@@ -203,6 +203,9 @@ pub enum Op {
     Derive { h: usize, form: u8, flip: bool },
     /// plain clone of the handle (same wrapper form)
     CloneH { h: usize },
+    /// `n` further clones of the handle, all kept alive until the end of the history (how many
+    /// copies of a parser exist must not matter)
+    CloneMany { h: usize, n: u32 },
     DropH { h: usize },
     /// relocate the handle value (its address changes; for unboxed parsers every node moves)
     MoveH { h: usize },
@@ -240,6 +243,7 @@ where
     P: Parser<'a, I, Val, Ex<'a, I>> + Clone + 'a,
 {
     let mut slots: Vec<Option<Box<HK<'a, I, P>>>> = vec![Some(Box::new(HK::Own(root)))];
+    let mut crowd: Vec<HK<'a, I, P>> = Vec::new();
     let mut out = Vec::new();
     for (i, op) in ops.iter().enumerate() {
         match op {
@@ -301,6 +305,13 @@ where
                 if let Some(Some(hk)) = slots.get(*h) {
                     let n: HK<'a, I, P> = (**hk).clone();
                     slots.push(Some(Box::new(n)));
+                }
+            }
+            Op::CloneMany { h, n } => {
+                if let Some(Some(hk)) = slots.get(*h) {
+                    for _ in 0..(*n).min(5000) {
+                        crowd.push((**hk).clone());
+                    }
                 }
             }
             Op::DropH { h } => {
@@ -408,9 +419,17 @@ pub fn gen_ops(rng: &mut Rng, npool: usize, cfg: &GenOpsCfg, cbs: &dyn Fn(usize,
                 ops.push(Op::Derive { h, form: rng.below(N_FORMS as u64) as u8, flip: rng.chance(1, 2) });
                 live.push(true);
             }
-            15 | 16 => {
+            15 => {
                 ops.push(Op::CloneH { h });
                 live.push(true);
+            }
+            16 => {
+                if rng.chance(1, 3) {
+                    ops.push(Op::CloneMany { h, n: *rng.pick(&[16u32, 300, 1100, 2500]) });
+                } else {
+                    ops.push(Op::CloneH { h });
+                    live.push(true);
+                }
             }
             17 | 18 => {
                 // never drop the last live handle unless this is the end anyway
@@ -680,6 +699,7 @@ fn run_cache_history(g: &G, pool: &[Vec<u8>], ops: &[Op]) -> Vec<OpResult> {
                 out.push(OpResult { nested: false, op: i, key: (*inp, mode_ix(*mode), *abort), form: 12, outcome: o, abort_fired: fired });
             }
             Op::Derive { .. } | Op::CloneH { .. } => extra.push(Some(Cache::new(CG(g.clone())))),
+            Op::CloneMany { .. } => {}
             Op::DropH { h } => {
                 if *h > 0 {
                     if let Some(s) = extra.get_mut(*h - 1) {
@@ -927,6 +947,7 @@ impl HistSim {
                 Op::Reenter { .. } => "ops.reentrant_parse(second parse started inside a callback of the first)",
                 Op::Derive { .. } => "ops.derive_wrapper",
                 Op::CloneH { .. } => "ops.clone_handle",
+                Op::CloneMany { .. } => "ops.clone_many(16..2500 live clones)",
                 Op::DropH { h } => {
                     if *h == 0 {
                         acc.inc("ops.drop_original");
